@@ -253,7 +253,11 @@ func (v *vdrRun) forkDisk(f *core.VerifVdrFork, tree map[string]vdrEnt, useEver 
 		} else if f.Split && strings.HasPrefix(job, "chnk") {
 			kind = "c"
 		}
-		parts = append(parts, fmt.Sprintf("%s:%d:%s", hx(path.Join(v.psdir, rel)), sizeAsWalked(rel, src[rel]), kind))
+		ent := fmt.Sprintf("%s:%d:%s", hx(path.Join(v.psdir, rel)), sizeAsWalked(rel, src[rel]), kind)
+		if alts := src[rel].Alts; len(alts) > 0 {
+			ent += ":" + hxList(alts)
+		}
+		parts = append(parts, ent)
 	}
 	if len(parts) == 0 {
 		return "."
